@@ -47,19 +47,21 @@
 (* Query, reader/tempo/tracesQuery.go GetTracesQuery, reader/tempo/sqlIndexQuery.go, the controller):             *)
 (*   idx_i :  SELECT trace_id, span_id FROM tempo_traces_attrs_gin WHERE key = k_i AND val = v_i AND date >= ..   *)
 (*            AND date <= ..       [tempo_v2 announced in `settings`: AND timestamp_ns >= from AND timestamp_ns   *)
-(*            <= to AND duration >= min AND duration < max]                        -- one per tag                 *)
+(*            <= to AND duration >= min AND duration <= max]                       -- one per tag                 *)
 (*   idx   :  idx_0 INNER ANY JOIN idx_i ON trace_id AND span_id                   -- the SAME span               *)
 (*            [tempo_v2 and limit > 0: ORDER BY timestamp_ns DESC LIMIT limit]                                    *)
 (*   search:  SELECT hex(trace_id), service_name, name, timestamp_ns, intDiv(duration_ns, 1000000) duration_ms    *)
 (*            FROM tempo_traces WHERE (trace_id, span_id) IN idx AND timestamp_ns > from AND timestamp_ns <= to   *)
-(*            AND duration_ms > min/1e6 AND duration_ms <= max/1e6 ORDER BY timestamp_ns DESC LIMIT limit         *)
+(*            AND duration_ns >= min AND duration_ns <= max ORDER BY timestamp_ns DESC LIMIT limit                *)
 (*            -- one answer entry PER ROW: there is no grouping into traces                                       *)
 (*   tags  :  SELECT DISTINCT key FROM tempo_traces_kv ORDER BY key                                               *)
-(*   values:  the tag loses a leading "span." / "." / "resource."; SELECT DISTINCT val FROM tempo_traces_kv       *)
-(*            WHERE key = tag                                                                                     *)
-(*   by id :  hex.Decode(id) or 500; SELECT .. FROM tempo_traces WHERE trace_id = unhex(id) ORDER BY timestamp_ns *)
-(*            LIMIT 2000; always 200                                                                              *)
-(* parameterised by named quirks Q: the places where the code as written departs from the definition.             *)
+(*   values:  SELECT DISTINCT val FROM tempo_traces_kv WHERE key = tag   (the scope prefix is cut off by the v2   *)
+(*            route only)                                                                                         *)
+(*   by id :  the id is left-padded to 32 digits; hex.Decode(id) or 500; SELECT .. FROM tempo_traces WHERE        *)
+(*            trace_id = unhex(id) ORDER BY timestamp_ns LIMIT 2000; no row: 404, else 200                        *)
+(* (the text above is the code after the repairs a8ca739 .. 76d5c8d: x07.py REPAIRED)                             *)
+(* parameterised by named quirks Q: the places where the code as written departs, or departed, from the           *)
+(* definition.                                                                                                    *)
 (*      span_rows          no grouping: every span row that passes the filters is listed as a "trace" with ITS    *)
 (*                         service, name, start and duration; `limit` counts span rows                            *)
 (*      tags_same_span     the tags must all sit on ONE span (join on trace_id AND span_id)                       *)
